@@ -28,3 +28,4 @@ s_harness! { fn c14_shape_5() { shape_5::<{ CHK_MONITOR | CHK_SIZES }>() } }
 s_harness! { fn c01_shape_6() { shape_6::<CHK_READS>() } }
 s_harness! { fn c19_shape_6() { shape_6::<CHK_STATS>() } }
 s_harness! { fn c14_shape_6() { shape_6::<{ CHK_MONITOR | CHK_SIZES }>() } }
+s_harness! { fn c01_shape_7() { shape_7::<CHK_READS>() } }
